@@ -121,13 +121,13 @@ CHECKS['C07'] = {
 }
 CHECKS['C19'] = {
     'level': 'proof',
-    'units': ['resp', 'path', 'cmv', 'cmv2'],
+    'units': ['resp', 'path', 'gpv', 'cmv', 'cmv2'],
     'kani': [],
     'technique': 'contract-based deductive verification (Verus) of the method/status/content-format/observe accessors against the raw message view',
     'level_text': 'Proof for the claimed accessors, for all packets (whatever was stored before): get/set_method and get/set_status agree with the code field for every variant and every code byte (unnamed ones read as UnKnown); set_content_format replaces the Content-Format option by the minimal uint of the registry id and get_content_format returns the registry entry of the first value (None if absent, longer than 2 bytes or unassigned); set_observe_flag / get_observe_flag likewise through the Observe option (values longer than 4 bytes or other than 0/1 give Err). Unit path: set_path(s) leaves exactly the pieces of s between \'/\' (minus the empty piece before a leading \'/\') as Uri-Path values, in order, and nothing else changed; get_path returns the valid-UTF-8 values joined by \'/\'; theorem: get_path after set_path(s) returns s without one leading \'/\', for every string. Units cmv / cmv2 (coap-message 0.3 / 0.2 views): code() / payload() return the header code and the payload, set_code / set_payload / add_option write exactly those fields (add_option appends to the list of its option number), and the option iterator options() / MessageOptionAdapter::next yields every stored value exactly once as (number, value), grouped by number in ascending number order, values in their stored order, and terminates.',
     'level_note': 'Trusted: as C07. Unit path assumes contracts for the std string functions (str::split(char) == split_on, [&str]::join == join_with, as_bytes/from_utf8 inverse on text, is_empty, to_string) and reads `for (i, s) in segs.enumerate()` as the equivalent index loop (R32). Units cmv/cmv2 read each `impl Trait for Packet` block of impl_coap_message*.rs as an inherent impl with methods renamed cm_* (R39): the traits are declared in an external crate that a single-file Verus run cannot link; the crate\'s generic copy routine (set_from_message) is external code and not verified. NOT covered (reported in evidence): get_path_as_vec and the remaining coap-message 0.2/0.3 trait views (external crates cannot be linked into single-file Verus; packet-level Kani harnesses too expensive).',
     'trusted': [T_VERUS, T_R1, T_DEF, T_CLOS, T_UINT, 'std string functions used by set_path/get_path (str::split(char), Enumerate, str::is_empty, str::as_bytes, core::str::from_utf8, [&str]::join, str::to_string): contracts assumed in unit path over the spec functions split_on / join_with / utf8_bytes / utf8_text (UTF-8 decoding inverts encoding: axiom)'],
-    'not_covered': ['get_path_as_vec (iterator adapters)', 'coap-message: mutate_options (nested iter_mut with a callback), the result slice of payload_mut_with_len (only panic freedom is checked) and the external crate\'s generic copy routine set_from_message'],
+    'not_covered': ['coap-message: mutate_options (nested iter_mut with a callback), the result slice of payload_mut_with_len (only panic freedom is checked) and the external crate\'s generic copy routine set_from_message'],
     'explanation': 'units resp and path (both include the accessor layer of unit acc)',
 }
 
@@ -208,12 +208,12 @@ CHECKS['C10'] = {
     'explanation': 'units blk + msz, kani negotiate_within_budget',
 }
 CHECKS['C12'] = {
-    'level': 'proof', 'units': ['blk', 'key'], 'kani': [],
+    'level': 'proof', 'units': ['blk', 'key', 'gpv'], 'kani': [],
     'technique': 'Verus frame conditions on the verbatim entry points: only the state under the request key is touched; replies keep message id, token and token length of the current request; RequestCacheKey::from verified to store exactly (method code byte, path segments, endpoint) with a lemma that keys differ iff one of the three differs',
     'level_text': 'Proof relative to the cache contract (R24): intercept_request / intercept_response read and write only the state stored under key_of(request) - every other key keeps its state (or expires) - so transfers with different keys cannot observe each other; and on every path, including blocks served from the cache via packet_clone_limited, the reply keeps the message id, token and token-length field that CoapResponse::new took from the request being answered.',
-    'level_note': _BLK_NOTE + ' Unit key: the real From<&CoapRequest> impl of RequestCacheKey is verified (fields == (u8 of Request(method), decoded Uri-Path segments in order, clone of source)); lemma_keys_differ: two requests share all key fields iff they agree in method, segment list and endpoint (segmentation included: the key holds the list, not a joined string). Assumed there: get_path_as_vec (iterator adapters + String::from_utf8) returns the decoded segments in order, and the derived Ord/Eq of the key struct are field-wise. The composition blk.key_of == id of these fields is by construction of the cache abstraction, not proved.',
+    'level_note': _BLK_NOTE + ' Unit key: the real From<&CoapRequest> impl of RequestCacheKey is verified (fields == (u8 of Request(method), decoded Uri-Path segments in order, clone of source)); lemma_keys_differ: two requests share all key fields iff they agree in method, segment list and endpoint (segmentation included: the key holds the list, not a joined string). The contract of get_path_as_vec that unit key relies on (Ok(decoded segments in order) iff every Uri-Path value is valid UTF-8) is proved on the real function in unit gpv (iterator map/collect read through wrappers R33/R33b with the real closures); assumed: String::from_utf8 semantics (utf8_text) and that the derived Ord/Eq of the key struct are field-wise. The composition blk.key_of == id of these fields is by construction of the cache abstraction, not proved.',
     'trusted': [T_VERUS, T_R1] + T_BLK,
-    'not_covered': ['CoapRequest::get_path_as_vec (assumed contract)', 'the external lru_time_cache behaves as a per-key map', 'a Uri-Path that is not valid UTF-8 is keyed like the empty path (outside the quantifier of C12)'],
+    'not_covered': ['the external lru_time_cache behaves as a per-key map', 'a Uri-Path that is not valid UTF-8 is keyed like the empty path (outside the quantifier of C12)'],
     'explanation': 'units blk, key',
 }
 
